@@ -1,5 +1,5 @@
 """U3 - unix::recv (reassembly), OsOpaqueIpcChannel conversions.  Verus, unbounded."""
-from vf.gen import Unit, Fn, Clause, Hint, Rule, Loop, DROP
+from vf.gen import Unit, Fn, Clause, Hint, Rule, Loop, AppendArg, DROP
 from units.u2_send import fragment_size, first_fragment_size, get_max_fragment_size, R_SYS, IMPL
 
 F = "src/platform/unix/mod.rs"
@@ -35,7 +35,7 @@ SPLIT_STEP = (
     "    assert(shared_memory_regions@ =~= rg0.push(shared_memory_regions@.last()) ==> region_fds(shared_memory_regions@) =~= region_fds(rg0).push(shared_memory_regions@.last().store.fd));\n"
     "}")
 
-recv = Fn(F, ["recv"], ret="r", extra_params="Tracked(k): Tracked<&mut K>",
+recv_message = Fn(F, ["recv_message"], ret="r", extra_params="Tracked(k): Tracked<&mut K>",
     requires=[
         Clause("unix.recv/requires.sys", "48 <= sys_sendbuf() <= isize::MAX"),
         Clause("unix.recv/requires.kernel_wf", "old(k).q.dom().contains(fd)"),
@@ -43,11 +43,13 @@ recv = Fn(F, ["recv"], ret="r", extra_params="Tracked(k): Tracked<&mut K>",
     ],
     ensures=[
         Clause("unix.recv/ensures.ok_exact_payload_and_attachments",
-               "r matches Ok((d, c, s)) ==> recv_ok_post(*old(k), *final(k), fd, d@, c@, s@)", ["C01", "C02", "C04", "C05", "C12", "C13", "C18"]),
+               "r matches Ok(Some((d, c, s))) ==> recv_ok_post(*old(k), *final(k), fd, d@, c@, s@)", ["C01", "C02", "C04", "C05", "C12", "C13", "C18"]),
         Clause("unix.recv/ensures.ok_only_if_complete",
-               "r is Ok ==> head_complete(*old(k), fd)", ["C12", "C01", "C13"]),
+               "r matches Ok(Some(_)) ==> head_complete(*old(k), fd)", ["C12", "C01", "C13"]),
         Clause("unix.recv/ensures.complete_head_is_delivered_or_io_error",
-               "head_complete(*old(k), fd) ==> !(r matches Err(UnixError::ChannelClosed))", ["C12", "C03", "C01"]),
+               "head_complete(*old(k), fd) ==> !(r matches Err(UnixError::ChannelClosed)) && !(r matches Ok(None))", ["C12", "C03", "C01"]),
+        Clause("unix.recv/ensures.abandoned_emission_consumed_whole_and_reported_as_no_message",
+               "r matches Ok(None) ==> old(k).q[fd].len() > 0 && !head_complete(*old(k), fd) && final(k).q == after_head(old(k).q, fd) && final(k).sock == old(k).sock", ["C12", "C03"]),
         Clause("unix.recv/ensures.closed_only_on_own_eof",
                "r matches Err(UnixError::ChannelClosed) ==> old(k).q[fd].len() == 0", ["C12", "C03"]),
         Clause("unix.recv/ensures.would_block_only_when_nothing_was_queued",
@@ -88,6 +90,9 @@ recv = Fn(F, ["recv"], ret="r", extra_params="Tracked(k): Tracked<&mut K>",
              "            assert(filled.subrange(0, p.data.len() as int)[i] == filled[i]);\n"
              "        }\n"
              "    }\n"
+             "    assert(spec_cmsg_align(16) == 16);\n"
+             "    assert((4 * p.fds.len()) / 4 == p.fds.len());\n"
+             "    assert(channel_length == p.fds.len());\n"
              "    assert(p.fds.subrange(0, 0) =~= Seq::<c_int>::empty());\n"
              "    assert(opaque_fds(channels@) =~= Seq::<c_int>::empty());\n"
              "    assert(region_fds(shared_memory_regions@) =~= Seq::<c_int>::empty());\n"
@@ -124,6 +129,51 @@ recv = Fn(F, ["recv"], ret="r", extra_params="Tracked(k): Tracked<&mut K>",
     attrs="#[verifier::loop_isolation(false)]",
     safety_props=["C18"], termination_props=["C12", "C10"])
 
+recv = Fn(F, ["recv"], ret="r", extra_params="Tracked(k): Tracked<&mut K>",
+    requires=[
+        Clause("unix.recv.loop/requires.sys", "48 <= sys_sendbuf() <= isize::MAX"),
+        Clause("unix.recv.loop/requires.every_queued_emission_written_by_send", "old(k).q.dom().contains(fd) && heads_ok(*old(k), old(k).q, fd, old(k).q[fd].len())"),
+    ],
+    ensures=[
+        Clause("unix.recv.loop/ensures.complete_head_is_delivered_exactly_by_this_call",
+               "head_complete(*old(k), fd) ==> !(r matches Err(UnixError::ChannelClosed))\n"
+               "&& (r matches Ok((d, c, s)) ==> recv_ok_post(*old(k), *final(k), fd, d@, c@, s@))", ["C01", "C02", "C04", "C05", "C12", "C13", "C03"]),
+        Clause("unix.recv.loop/ensures.ok_is_a_complete_emission_after_only_abandoned_ones",
+               "r matches Ok((d, c, s)) ==> exists|n: nat, q1: Map<c_int, Seq<Packet>>| skipped(*old(k), old(k).q, fd, n, q1)\n"
+               "&& head_complete(with_q(*old(k), q1), fd) && recv_ok_post(with_q(*old(k), q1), *final(k), fd, d@, c@, s@)", ["C12", "C01", "C02"]),
+        Clause("unix.recv.loop/ensures.closed_only_on_own_eof_after_only_abandoned_emissions",
+               "r matches Err(UnixError::ChannelClosed) ==> final(k).q[fd].len() == 0\n"
+               "&& exists|n: nat| skipped(*old(k), old(k).q, fd, n, final(k).q)", ["C12", "C03"]),
+        Clause("unix.recv.loop/ensures.would_block_only_when_nothing_deliverable_was_queued",
+               "r matches Err(UnixError::Errno(c)) ==> ((c == libc::EAGAIN || c == libc::EWOULDBLOCK) ==> final(k).q[fd].len() == 0\n"
+               "&& exists|n: nat| skipped(*old(k), old(k).q, fd, n, final(k).q))", ["C10", "C12", "C06", "C03"]),
+        Clause("unix.recv.loop/ensures.nothing_queued_nothing_consumed",
+               "old(k).q[fd].len() == 0 ==> r is Err && final(k).q == old(k).q", ["C10", "C03"]),
+    ],
+    loops={0: Loop(invariants=[
+        Clause("unix.recv.loop/loop0.invariant.only_abandoned_emissions_skipped_so_far",
+               "k.q.dom().contains(fd) && k.sock == k0.sock && heads_ok(k0, k.q, fd, k.q[fd].len())\n"
+               "&& skipped(k0, k0.q, fd, nskip, k.q) && (nskip > 0 ==> !head_complete(k0, fd)) && (nskip == 0 ==> k.q == k0.q)", ["C12", "C03"])],
+        decreases="k.q[fd].len()")},
+    hints=[
+        Hint("body:start", "let ghost k0 = *k;\nlet ghost mut nskip: nat = 0;"),
+        Hint("loop:0:start",
+             "let ghost kb = *k;\n"
+             "proof {\n"
+             "    assert(head_ok(with_q(k0, kb.q), fd));\n"
+             "    assert(head_ok(kb, fd));\n"
+             "    assert(head_complete(with_q(k0, kb.q), fd) == head_complete(kb, fd));\n"
+             "}", "unix.recv.loop/loop0.invariant.only_abandoned_emissions_skipped_so_far"),
+        Hint("loop:0:end",
+             "proof {\n"
+             "    lemma_skipped_snoc(k0, k0.q, fd, nskip, kb.q);\n"
+             "    nskip = nskip + 1;\n"
+             "}", "unix.recv.loop/loop0.invariant.only_abandoned_emissions_skipped_so_far"),
+    ],
+    rules=[AppendArg("B29", r"\brecv_message\(", "Tracked(&mut *k)", "the one-message receive (under contract above)", min_count=1)],
+    attrs="#[verifier::loop_isolation(false)]",
+    safety_props=["C18"], termination_props=["C12", "C10"])
+
 opaque_from_fd = Fn(F, ["impl OsOpaqueIpcChannel", "from_fd"], ret="r",
     ensures=[Clause("unix.OsOpaqueIpcChannel.from_fd/ensures.wraps", "r.fd == fd", ["C04"])], safety_props=["C18"])
 opaque_to_receiver = Fn(F, ["impl OsOpaqueIpcChannel", "to_receiver"], ret="r",
@@ -151,7 +201,7 @@ UNIT = Unit(
     groups=[(IMPL, [fragment_size, first_fragment_size, get_max_fragment_size, sender_from_fd]),
             ("impl OsIpcReceiver", [receiver_from_fd]),
             ("impl OsOpaqueIpcChannel", [opaque_from_fd, opaque_to_sender, opaque_to_receiver]),
-            (None, [cmsg_align, recv])],
+            (None, [cmsg_align, recv_message, recv])],
     props=["C01", "C02", "C03", "C04", "C05", "C10", "C11", "C12", "C13", "C18"],
     prelude_clauses={
         "std.set_len/requires.le_capacity": ["C18", "C13"],
